@@ -863,6 +863,10 @@ func processStructProvider(fset *token.FileSet, info *types.Info, call *ast.Call
 				continue
 			}
 			f := st.Field(i)
+			if f.Name() == "_" {
+				// A blank field cannot be set in a composite literal.
+				continue
+			}
 			provider.Args = append(provider.Args, ProviderInput{
 				Type:      f.Type(),
 				FieldName: f.Name(),
@@ -1106,6 +1110,10 @@ func checkField(f ast.Expr, st *types.Struct) (*types.Var, error) {
 		return nil, fmt.Errorf("%v must be a string with the field name", f)
 	}
 	for i := 0; i < st.NumFields(); i++ {
+		if st.Field(i).Name() == "_" {
+			// Blank fields can be neither set nor selected.
+			continue
+		}
 		if strconv.Quote(st.Field(i).Name()) == b.Value {
 			if isPrevented(st.Tag(i)) {
 				return nil, fmt.Errorf("%s is prevented from injecting by wire", b.Value)
